@@ -27,7 +27,9 @@ CHECKS = {
              "destruction; leaks, double destruction, destruction of a running child, allocator imbalance and any "
              "ASan/UBSan report are violations. The operation state lives in a poisoned heap arena that the receiver "
              "frees inside its completion in half of the scenarios. For representative scenarios every single "
-             "throwable point is made to throw in turn (complete single-fault enumeration for those scenarios).",
+             "throwable point (callable, value copy, move of the throwing-move value flavour, leaf connect, allocation) is made "
+             "to throw in turn (complete single-fault enumeration for those scenarios). The detach_on_cancel race harness "
+             "(LeakSanitizer) and the task<> plan interpreter (frame/local ledger) run with this verdict too.",
         note=EXPR_NOTE + " Double faults are not enumerated."),
     "C04": dict(
         level="exploration", design="5 C04",
@@ -36,7 +38,9 @@ CHECKS = {
         text="The outer receiver exposes a counting stop token; at the instant of completion the number of live "
              "registrations must be zero and the source is freed (ASan catches later use). After each stop request "
              "every running leaf logs what its own token says, and leaves started later log their token state; both "
-             "are compared with the reference model (shielded under unstoppable only).",
+             "are compared with the reference model (shielded under unstoppable only). The same rules are applied to the "
+             "generated stream pipelines of C13 (take_until, stop_immediately, type_erase) and to the task<> plan "
+             "interpreter of C10 (stop-request thunk and token adapter registrations).",
         note=EXPR_NOTE),
     "C05": dict(
         level="exploration", design="5 C05",
@@ -53,7 +57,10 @@ CHECKS = {
         text="Each generated program logs the traits its sender type declares (blocking, sends_done, "
              "is_always_scheduler_affine); leaves have truthful flavours, so an observed completion after start() "
              "returned / off the receiver's context / with done that contradicts a declared trait is the adaptor's "
-             "unsoundness. via/on hops are checked through the model (completion delivered in the scheduler leaf's reaction).",
+             "unsoundness. via/on hops are checked through the model (completion delivered in the scheduler leaf's reaction) and, "
+             "for programs rooted in via(), by a direct rule that also holds under injected faults (completion on the scheduler's "
+             "context whenever its hop ran; hop never skipped). task<>: root completion context of generated plans, and the "
+             "thread of every resumption in the multi-threaded task harness (stop arriving from another thread).",
         note=EXPR_NOTE + " blocking_kind::never is not judged."),
     "C12": dict(
         level="exploration", design="5 C12",
@@ -101,7 +108,9 @@ CHECKS["C16"] = dict(
     text="Waiters, setters, resetters and (v2) stop requests race on a fresh event per history; the oracle checks "
          "exactly-once completion, no stranded waiter after set(), no completion without set(), behaviour after reset, "
          "value completions on the receiver's scheduler thread; auto-reset event: values never exceed set() calls, done is "
-         "permanent. async_pass is covered by the separate pass harness when registered.",
+         "permanent. async_pass (harness pass.cpp): async_call/async_accept from two threads with a stop request on one side, "
+         "survivor served by try_call/try_accept; value iff delivered, exact payload, cancelled side leaves the other waiting "
+         "and the argument untouched, try_* fail on an idle pass, completion on the waiter's scheduler thread.",
     note=MT_NOTE)
 
 CHECKS["C08"] = dict(
@@ -233,7 +242,9 @@ CHECKS["C10"] = dict(
          "three receiver token flavours; the observed log - resumption values and contexts, exceptions, done unwinding, "
          "cleanup order relative to local destruction and to the parent's resumption, frame destruction, stop delivery to "
          "the awaited leaf, root completion - must equal the model's.",
-    note="g++ -std=c++20 only; single driver thread (stop requests are injected at every driver position, not raced).")
+    note="g++/clang++ -std=c++20 only. Deterministic part: single driver thread, stop injected at every driver position. "
+         "Multi-threaded part (coromt): a real stop request from another context's thread races the task tree, hook sites "
+         "451-455 in the stop-request thunk are perturbed and both join orders must be observed; ASan+UBSan and TSan.")
 
 NOT_YET = "check not built yet (construction in progress, see DESIGN.md section 10)"
 
